@@ -1,20 +1,34 @@
 (* C16 -- Version linearity and identifier uniqueness.
 
-   Proved: under the size bounds of one call and referential integrity of the shard being
-   migrated, every operation keeps all order and shard ids below their counters, never lowers
-   a counter, and gives every new record an id at or above the old counter (never reused).
-   The unconditional statement is refuted: completing a migration whose old shard names a
-   missing order stores a zero order under key 0 (step_ids_refuted; needs a dangling
-   reference, which the monitors ref.shard_has_order exclude on implementation states).
-   "An update names the latest committed version" is monitored per accepted Store
-   (ver.base_is_latest) and refuted by finding D16 (substring test).
+   IDENTIFIERS. Per operation (step_ids_partial): under the size bounds of one call and referential
+   integrity of the shard being migrated, every operation keeps all order and shard ids below their
+   counters, never lowers a counter, and gives every new record an id at or above the old counter.
+   Over whole histories (Proofs/Ids.v, by induction over the operation list): the invariant and the
+   monotone counters hold along every run that meets the side conditions at each step
+   (run_ids_partial); an identifier that has existed and disappeared is never given to a new record
+   (order_id_never_reused, shard_id_never_reused); a record created later has a larger identifier
+   than every record that existed earlier (order_ids_increase, shard_ids_increase).
+   The unconditional step statement is refuted: completing a migration whose old shard names a
+   missing order stores a zero order under key 0 (step_ids_refuted; needs a dangling reference,
+   which the monitor ref.shard_has_order excludes on implementation states).
+
+   VERSION LINEARITY (Proofs/History.v). step_history: whatever the operation, a data model present
+   afterwards either was present before with the same owner and a history related by the chain order
+   hist_le (unchanged, one version appended, or only the latest version replaced), or it is new,
+   created by a Store naming its data id, with the empty history. run_history: along any run during
+   which the model exists its history is a single chain (committed_prefix_stable: everything but the
+   then-latest entry stays a prefix for ever). store_update_linear: an update is accepted only if its
+   base is a substring of the model's latest version and no other update is in flight (status
+   MetaComplete). "The base IS the latest version" is false of the faithful model
+   (store_base_equality_refuted, finding D16: strings.Contains) and is monitored per accepted Store
+   (ver.base_is_latest / ver.base_not_proper_substring).
 
    "At most one unfinished storage order per data model" is monitored (ids.one_in_flight) and is
    FALSE of the faithful model (run_one_in_flight_refuted): the model end blocker deletes an
    expired model without looking at its latest order; if that order is still unfinished (possible
    only through finding D15: a timeout check that gave up) a new Store of the same data id opens
    a second one. Recorded as a consequence of D15 (scenario d15-two-in-flight). *)
-From SaoVerif Require Import Base.Prelude Base.Ints Base.Dec Model.Did Model.Types Model.Monad Model.Bank Model.Select Model.Node Model.Storage Model.Sao Model.Hooks Model.App Model.Spec Proofs.Frame Model.Inv Proofs.Escrow.
+From SaoVerif Require Import Base.Prelude Base.Ints Base.Dec Model.Did Model.Types Model.Monad Model.Bank Model.Select Model.Node Model.Storage Model.Sao Model.Hooks Model.App Model.Spec Proofs.Frame Model.Inv Proofs.Escrow Proofs.RefInt Proofs.Ids Proofs.History.
 From RecordUpdate Require Import RecordUpdate.
 Import RecordSetNotations.
 
@@ -35,6 +49,91 @@ Theorem C16_step_ids_refuted :
        (forall id sh, shards (fst (step cx s op)) !! id = Some sh -> shards s !! id = None -> shard_count s <= id)).
 Proof. first [exact step_ids_refuted | apply step_ids_refuted]. Qed.
 Print Assumptions C16_step_ids_refuted.
+
+(* identifiers over whole histories *)
+Theorem C16_run_ids_partial : forall tr s,
+  Inv_ids s -> ids_ok_along tr s ->
+  Inv_ids (run tr s) /\ order_count s <= order_count (run tr s) /\ shard_count s <= shard_count (run tr s).
+Proof. first [exact run_ids_partial | apply run_ids_partial]. Qed.
+Print Assumptions C16_run_ids_partial.
+
+Theorem C16_order_id_never_reused : forall tr cx op s id,
+  Inv_ids s -> ids_ok_along (tr ++ [(cx, op)]) s ->
+  is_Some (orders s !! id) -> orders (run tr s) !! id = None ->
+  orders (run (tr ++ [(cx, op)]) s) !! id = None.
+Proof. first [exact order_id_never_reused | apply order_id_never_reused]. Qed.
+Print Assumptions C16_order_id_never_reused.
+
+Theorem C16_shard_id_never_reused : forall tr cx op s id,
+  Inv_ids s -> ids_ok_along (tr ++ [(cx, op)]) s ->
+  is_Some (shards s !! id) -> shards (run tr s) !! id = None ->
+  shards (run (tr ++ [(cx, op)]) s) !! id = None.
+Proof. first [exact shard_id_never_reused | apply shard_id_never_reused]. Qed.
+Print Assumptions C16_shard_id_never_reused.
+
+Theorem C16_order_ids_increase : forall tr cx op s id1 id2,
+  Inv_ids s -> ids_ok_along (tr ++ [(cx, op)]) s ->
+  is_Some (orders s !! id1) ->
+  orders (run tr s) !! id2 = None -> is_Some (orders (run (tr ++ [(cx, op)]) s) !! id2) ->
+  id1 < id2.
+Proof. first [exact order_ids_increase | apply order_ids_increase]. Qed.
+Print Assumptions C16_order_ids_increase.
+
+Theorem C16_shard_ids_increase : forall tr cx op s id1 id2,
+  Inv_ids s -> ids_ok_along (tr ++ [(cx, op)]) s ->
+  is_Some (shards s !! id1) ->
+  shards (run tr s) !! id2 = None -> is_Some (shards (run (tr ++ [(cx, op)]) s) !! id2) ->
+  id1 < id2.
+Proof. first [exact shard_ids_increase | apply shard_ids_increase]. Qed.
+Print Assumptions C16_shard_ids_increase.
+
+Theorem C16_ids_ok_along_nonvacuous :
+  Inv_ids W.s0 /\ ids_ok_along ex_ids_run W.s0 /\
+  order_count W.s0 = 1 /\ order_count (run ex_ids_run W.s0) = 3 /\
+  orders W.s0 !! 1 = None /\ is_Some (orders (run ex_ids_run W.s0) !! 1) /\ is_Some (orders (run ex_ids_run W.s0) !! 2) /\
+  is_Some (shards (run ex_ids_run W.s0) !! 1).
+Proof. first [exact ids_ok_along_nonvacuous | apply ids_ok_along_nonvacuous]. Qed.
+Print Assumptions C16_ids_ok_along_nonvacuous.
+
+(* version linearity - one step *)
+Theorem C16_step_history : forall cx s op k x, metas (fst (step cx s op)) !! k = Some x ->
+  (exists a, metas s !! k = Some a /\ same_model a x) \/
+  (exists m, op = OStore m /\ metas s !! k = None /\ k = st_data m /\ m_commits x = [] /\ m_owner x = st_owner m).
+Proof. first [exact step_history | apply step_history]. Qed.
+Print Assumptions C16_step_history.
+
+(* version linearity - whole histories *)
+Theorem C16_run_history : forall tr s d a x,
+  metas s !! d = Some a -> alive_along d tr s -> metas (run tr s) !! d = Some x -> same_model a x.
+Proof. first [exact run_history | apply run_history]. Qed.
+Print Assumptions C16_run_history.
+
+Theorem C16_committed_prefix_stable : forall tr s d a x v rest,
+  metas s !! d = Some a -> alive_along d tr s -> metas (run tr s) !! d = Some x ->
+  m_commits a = rest ++ [v] -> rest `prefix_of` m_commits x.
+Proof. first [exact committed_prefix_stable | apply committed_prefix_stable]. Qed.
+Print Assumptions C16_committed_prefix_stable.
+
+(* an accepted update names a substring of the latest version and no other update is in flight *)
+Theorem C16_store_update_linear : forall cx s m s' d,
+  step cx s (OStore m) = (s', OutTx COk d) -> update_ok s m.
+Proof. first [exact store_update_linear | apply store_update_linear]. Qed.
+Print Assumptions C16_store_update_linear.
+
+(* finding D16 *)
+Theorem C16_store_base_equality_refuted : exists cx s m s' d em,
+  step cx s (OStore m) = (s', OutTx COk d) /\ metas s !! st_data m = Some em /\
+  fst (split_commit (st_commit m)) <> m_commit em.
+Proof. first [exact store_base_equality_refuted | apply store_base_equality_refuted]. Qed.
+Print Assumptions C16_store_base_equality_refuted.
+
+Theorem C16_history_nonvacuous :
+  (exists a, metas W.s2 !! W.data = Some a /\ map commit_of_version (m_commits a) = [W.data]) /\
+  alive_along W.data hist_run W.s2 /\
+  commits_of (run (firstn 2 hist_run) W.s2) = [W.data; "11111111-1111-1111-1111-111111111111"] /\
+  commits_of (run hist_run W.s2) = [W.data; "22222222-2222-2222-2222-222222222222"].
+Proof. first [exact history_nonvacuous | apply history_nonvacuous]. Qed.
+Print Assumptions C16_history_nonvacuous.
 
 (* at most one unfinished order per data model is FALSE of the model - the model end blocker deletes an expired model whose order is still unfinished (consequence of D15) and a new Store of the same data id opens a second one *)
 Theorem C16_run_one_in_flight_refuted : exists tr s,
